@@ -119,6 +119,7 @@ type Case struct {
 	Inject  string    `json:"inject"`            // set: through Set*/SetChild/Remove; data: generic dump of the config edited and normalised again
 	Move    string    `json:"move,omitempty"`    // "" | key | list | append | prepend: how the config is merged into another one first
 	Wrap    bool      `json:"wrap,omitempty"`    // Move=key: unpack the outer config into struct{Pre T} instead of the child into T
+	After   bool      `json:"after,omitempty"`   // Inject=set and Move!="": inject into the moved child (else the fault is injected first and moved by the merge)
 	Meta    string    `json:"meta,omitempty"`    // MetaData source name ("" = none)
 }
 
@@ -555,6 +556,9 @@ func genCase(t *rapid.T) Case {
 		c.Wrap = rapid.Bool().Draw(t, "wrap")
 	}
 	c.Inject = rapid.SampledFrom([]string{"set", "data"}).Draw(t, "inject")
+	if c.Inject == "set" && c.Move != "" {
+		c.After = rapid.IntRange(0, 2).Draw(t, "after") == 0
+	}
 	if len(avail) == 0 {
 		c.Kind = kNone
 		return c
@@ -575,6 +579,7 @@ func genCase(t *rapid.T) Case {
 	case kRef:
 		c.Payload = gen.Str(rapid.SampledFrom(refPayloads).Draw(t, "ref"))
 		c.Inject = "data" // Set* does not parse variable expressions
+		c.After = false
 		fixValues(c.T, c.V, true)
 	case kValidator:
 		c.Tag = rapid.SampledFrom(tagsFor(s.td, s.tv)).Draw(t, "tag")
@@ -802,14 +807,21 @@ func build(c *Case, s *site, fault bool) (*ucfg.Config, []string, error) {
 		if cfg, err = ucfg.NewFrom(data, nopts...); err != nil {
 			return nil, nil, fmt.Errorf("NewFrom(data): %v", err)
 		}
-	} else if fault {
-		if err := injectSet(cfg, c, s, opts); err != nil {
-			if _, ok := err.(errDiscard); ok {
-				return nil, nil, err
-			}
-			return nil, nil, fmt.Errorf("inject: %v", err)
+	}
+	setFault := func(into *ucfg.Config) error {
+		err := injectSet(into, c, s, opts)
+		if _, ok := err.(errDiscard); ok || err == nil {
+			return err
+		}
+		return fmt.Errorf("inject: %v", err)
+	}
+	after := c.After && c.Inject == "set" && c.Move != ""
+	if fault && c.Inject == "set" && !after {
+		if err := setFault(cfg); err != nil {
+			return nil, nil, err
 		}
 	}
+	fault = fault && after // what is left to do once the config has been moved
 
 	filler := map[string]interface{}{"x": 1}
 	var prefix []string
@@ -821,12 +833,17 @@ func build(c *Case, s *site, fault bool) (*ucfg.Config, []string, error) {
 		if err := outer.Merge(map[string]interface{}{"pre": cfg}, opts...); err != nil {
 			return nil, nil, fmt.Errorf("move: %v", err)
 		}
-		if c.Wrap {
-			return outer, []string{"pre"}, nil
-		}
 		ch, err := outer.Child("pre", -1, opts...)
 		if err != nil {
 			return nil, nil, fmt.Errorf("move: %v", err)
+		}
+		if fault {
+			if err := setFault(ch); err != nil {
+				return nil, nil, err
+			}
+		}
+		if c.Wrap {
+			return outer, []string{"pre"}, nil
 		}
 		return ch, []string{"pre"}, nil
 	case "list":
@@ -861,6 +878,11 @@ func build(c *Case, s *site, fault bool) (*ucfg.Config, []string, error) {
 	ch, err := cfg.Child("pre", 1, opts...)
 	if err != nil {
 		return nil, nil, fmt.Errorf("move: %v", err)
+	}
+	if fault {
+		if err := setFault(ch); err != nil {
+			return nil, nil, err
+		}
 	}
 	return ch, prefix, nil
 }
@@ -920,7 +942,6 @@ func targetType(td *gen.TD, wrap bool) reflect.Type {
 
 func runCase(c Case, r *runlog.R) error {
 	if c.Kind == kNone || c.T == nil {
-		dbg("no fault site")
 		r.Class("no fault site")
 		r.Discard()
 		return nil
@@ -968,7 +989,6 @@ func runCase(c Case, r *runlog.R) error {
 		err = uc.Safe("Unpack", func() error { return base.Unpack(out.Interface(), unpackOpts()...) })
 	}
 	if err != nil {
-		dbg("invalid: " + firstLine(err.Error()))
 		r.Class("discard: pair invalid without the fault")
 		r.Discard()
 		return nil
@@ -979,7 +999,6 @@ func runCase(c Case, r *runlog.R) error {
 	err = uc.Safe("building the faulted configuration", func() (e error) { cfg, prefix, e = build(&c, s, true); return })
 	if err != nil {
 		if d, ok := err.(errDiscard); ok {
-			dbg("discard: " + d.why)
 			r.Class("discard: " + strings.SplitN(d.why, ":", 2)[0])
 			r.Discard()
 			return nil
@@ -1005,7 +1024,7 @@ func runCase(c Case, r *runlog.R) error {
 		source = ""
 	}
 	if err := checkError(uerr, want, source); err != nil {
-		return fmt.Errorf("%v\n fault %s at '%s' (inject=%s move=%s wrap=%v meta=%q payload=%v tag=%q)\n type %v", err, c.Kind, want, c.Inject, c.Move, c.Wrap, c.Meta, show(c.Payload), c.Tag, typ)
+		return fmt.Errorf("%v\n fault %s at '%s' (inject=%s move=%s wrap=%v after=%v meta=%q payload=%v tag=%q)\n type %v", err, c.Kind, want, c.Inject, c.Move, c.Wrap, c.After, c.Meta, show(c.Payload), c.Tag, typ)
 	}
 
 	moved := c.Move != ""
@@ -1016,6 +1035,7 @@ func runCase(c Case, r *runlog.R) error {
 	r.Class("move=" + map[bool]string{true: c.Move, false: "none"}[moved])
 	r.Class(fmt.Sprintf("depth=%d", len(c.Path)))
 	r.ClassIf(c.Wrap, "unpacked through a wrapping struct")
+	r.ClassIf(c.After && c.Inject == "set" && moved, "fault injected after the move")
 	r.ClassIf(c.Meta != "", "with metadata")
 	r.ClassIf(s.ft.list, "below list")
 	r.ClassIf(s.ft.mapk, "below map")
@@ -1032,16 +1052,6 @@ func runCase(c Case, r *runlog.R) error {
 		r.Class("critical error (with trace)")
 	}
 	return nil
-}
-
-func firstLine(s string) string {
-	if i := strings.IndexByte(s, '\n'); i >= 0 {
-		s = s[:i]
-	}
-	if len(s) > 160 {
-		s = s[:160]
-	}
-	return s
 }
 
 func isTyped(err error) bool { _, ok := err.(ucfg.Error); return ok }
